@@ -1427,7 +1427,7 @@ class Covout:
         if self._interactions:
             for k, v in self._interactions.items():
                 self._interactions[k] = v + self.sigma * np.random.randn(1)[0]
-            tokens = ["%s=%.4f" % ("+".join(k), v + self.baseline) for k, v in self._interactions.items()]
+            tokens = ["%s=%r" % ("+".join(k), float(v + self.baseline)) for k, v in self._interactions.items()]  # full precision: update_outcomes() re-derives the interaction outcomes from this string
             self.imp_interaction = ",".join(tokens)
 
         self.update_outcomes()
